@@ -120,3 +120,36 @@ Proof. unfold app_mode, otell, nlen. intros ->. lia. Qed.
 
 Lemma odata_new_oapp d : odata (oapp ostream_new d) = d.
 Proof. reflexivity. Qed.
+
+(* ---- the stream helpers fail only with StreamError ---- *)
+Theorem iread_discipline : forall s n p, (exists r, iread s n p = Ok r) \/ iread s n p = Err EStream (Some p).
+Proof.
+  intros s n p. unfold iread. destruct (n <? 0)%Z; [right; reflexivity|].
+  destruct (Z.of_nat (length (iavail s)) <? n)%Z; [right; reflexivity|left; eexists; reflexivity].
+Qed.
+
+Theorem iseek_discipline : forall s off w p, (exists r, iseek s off w p = Ok r) \/ iseek s off w p = Err EStream (Some p).
+Proof.
+  intros s off w p. unfold iseek.
+  destruct (negb (iseekable s)).
+  - destruct ((w =? 0)%Z && (off =? itell s)%Z); [left; eexists; reflexivity|right; reflexivity].
+  - destruct (w =? 0)%Z.
+    + destruct (off - Z.of_N (ibase s) <? 0)%Z; [right; reflexivity|left; eexists; reflexivity].
+    + destruct (w =? 1)%Z; [left; eexists; reflexivity|]. destruct (w =? 2)%Z; [left; eexists; reflexivity|right; reflexivity].
+Qed.
+
+Theorem owrite_discipline : forall o d n p, (exists r, owrite o d n p = Ok r) \/ owrite o d n p = Err EStream (Some p) \/ owrite o d n p = Err EUnsupported None.
+Proof.
+  intros o d n p. unfold owrite. destruct (n <? 0)%Z; [right; left; reflexivity|].
+  destruct (negb (Z.of_nat (length d) =? n)%Z); [right; left; reflexivity|].
+  unfold owrite_raw. destruct (opos o <=? nlen (odata o))%N; [left; eexists; reflexivity|].
+  destruct (alloc_bound <? Z.of_N (opos o - nlen (odata o)))%Z; [right; right; reflexivity|left; eexists; reflexivity].
+Qed.
+
+(* no value is produced from fewer bytes than requested *)
+Theorem iread_exact : forall s n p d s', iread s n p = Ok (d, s') -> Z.of_nat (length d) = n /\ (0 <= n)%Z.
+Proof.
+  intros s n p d s'. unfold iread. destruct (n <? 0)%Z eqn:E; [discriminate|].
+  destruct (Z.of_nat (length (iavail s)) <? n)%Z eqn:E2; [discriminate|]. intros H. injection H as <- _.
+  rewrite firstn_length. lia.
+Qed.
